@@ -127,6 +127,15 @@ def check(case):
     if got != complete:
         res.v("C10.c", "C10.c:complete-fields", "%s: %d primitive fields are complete in the prefix, %d were emitted before %r" % (
             label, complete, got, pre.exc_sum))
+    # a proper prefix that does not end at a message boundary must end with the depleted error (it is what the
+    # fields are emitted "before"); zero-width tails (empty trailing structures) excepted
+    n_total = case["input"]["len"]
+    if k < n_total and pre.exc_sum is None:
+        from .. import model as _m
+        o_whole = _m.decode(whole.spec["type"], bytes.fromhex(whole.spec["data"]), cc=whole.spec.get("cc"), enc=whole.spec.get("enc"))
+        at_boundary = whole.spec["type"] == _m.STREAM and k in o_whole.boundaries
+        if not at_boundary:
+            res.v("C10.c", "C10.c:no-depleted-error", "%s: decoding the proper prefix completed normally after %d events instead of raising the depleted error" % (label, len(pre.items)))
     # (d) source-agnostic
     ref = (pre.items, pre.outcome())
     for tid, t in sorted(w.tasks.items()):
